@@ -17,8 +17,8 @@
                                                                    guard: len >= 12, 12 <= offset <= len
      I  version:u64 | validatorIndex:u64| offset:u32 | payload     VersionedAttestation
                                                                    guard: len >= 20, offset == 20
-     VersionedAttestation.UnmarshalSSZ = I, and when I fails with an error that Is ssz.ErrOffset
-                                                                   (its own offset check or the inner codec's), V
+     VersionedAttestation.UnmarshalSSZ = I, and when I fails (before dd3af90: only with an error that Is
+                                                                   ssz.ErrOffset), V
      A  o0:u32 | o1:u32 | data | duty                              AttestationData
                                                                    guard: len >= 8, 8 <= o0 <= len, o0 <= o1 <= len
      D  pubkey:48 | 6 x u64                                        attesterDutySSZ; guard: len >= 96
@@ -148,8 +148,12 @@ Definition decI (b : bytes) : res (N * N * payload) :=
   | Panic => Panic
   end.
 
-(* VersionedAttestation.MarshalSSZTo / UnmarshalSSZ: validator index optional, decode falls back to
-   shape V when shape I fails with an error that Is ssz.ErrOffset *)
+(* VersionedAttestation.MarshalSSZTo / UnmarshalSSZ: validator index optional.  Decoding reads the bytes as
+   shape I first; when that fails it reads them as shape V (the legacy layout).
+   [pre_fix = true] is the rule before commit dd3af90: the legacy reading was tried only when the
+   indexed one failed with an error that Is ssz.ErrOffset.  Since dd3af90 ([pre_fix = false]) it is
+   tried on any error; when both readings fail the error returned is the legacy one if the indexed
+   error was an offset error, else the indexed one. *)
 Definition is_offset_err (e : err) : bool :=
   match e with EOffset => true | EInner c => c | _ => false end.
 
@@ -157,18 +161,18 @@ Definition encAtt (v : N * option N * payload) : option bytes :=
   let '(ver, oi, p) := v in
   match oi with Some idx => encI (ver, idx, p) | None => encV (ver, p) end.
 
-Definition decAtt (b : bytes) : res (N * option N * payload) :=
+Definition decAtt (pre_fix : bool) (b : bytes) : res (N * option N * payload) :=
   match decI b with
   | Ok (ver, idx, p) => Ok (ver, Some idx, p)
   | Panic => Panic
   | Err e =>
-      if is_offset_err e then
+      if pre_fix && negb (is_offset_err e) then Err e
+      else
         match decV b with
         | Ok (ver, p) => Ok (ver, None, p)
-        | Err e' => Err e'
+        | Err e' => if is_offset_err e then Err e' else Err e
         | Panic => Panic
         end
-      else Err e
   end.
 End ShapeV.
 
@@ -305,9 +309,10 @@ Definition udispatch (d : dutytype) (b : bytes) : option (utype * V) :=
   | _ => None
   end.
 
-(* A repaired decoder validates the decoded value before returning it (the check accepts both the
-   unrepaired and the repaired code, see EnvelopeCorr.v): [usable] says that the accessors used later
-   (MessageRoot, Signature, Clone / MarshalJSON, Clone) succeed on the value. *)
+(* Since commit 83a4e02 ParSignedDataFromProto / UnsignedDataSetFromProto validate the decoded value
+   before returning it (checkSignedData / checkUnsignedData, inside their recover): [usable] says that
+   the accessors used later (MessageRoot, Signature, Clone / MarshalJSON, Clone) succeed on the value.
+   The decoders are [validated usable (sdispatch ...)] and [validated usable (udispatch ...)]. *)
 Definition validated {Ty} (usable : V -> bool) (r : option (Ty * V)) : option (Ty * V) :=
   match r with
   | Some (t, v) => if usable v then Some (t, v) else None
